@@ -18,16 +18,20 @@ TRANSLATORS = []
 MANIFEST = {
     "text": "Proof: Tls.Conn (statement-order Lean model of readAsync/_getMsg dispatch, send_keyupdate_request, "
             "_handle_keyupdate_request, PHA both sides, heartbeat, close, alerts; keys abstracted to a generation per direction) "
-            "satisfies keys_in_step for every history of honest operations by either endpoint: every in-flight record carries the "
-            "generation its reader will hold on reaching it and delivered ++ buffered ++ in-flight = written (stream_fifo_control); "
-            "heartbeat_echo_exact, pha_chain_after_verify, unsolicited_control_fatal as decision theorems. Tie: seeded histories on live "
-            "TLS 1.3 / TLS<=1.2 lab connections (simultaneous KeyUpdates, storms, buffered data across KeyUpdate, min=0 reads, PHA with "
-            "client certificate, heartbeat modes), every op compared with the model; direct FIFO / no-alert / HKDF-generation / echo / "
-            "PHA / fatal-alert oracle on the implementation.",
+            "satisfies, for every history of honest operations by either endpoint from a fresh connection: keys_in_step (every "
+            "in-flight record carries the generation its reader will hold on reaching it, writer and reader generations agree), "
+            "no_bad_record_mac, stream_fifo_control (returned ++ buffered ++ in flight = written) and delivered_is_prefix; decision "
+            "theorems heartbeat_echo_exact, heartbeat_response_to_callback, pha_chain_after_verify (chain recorded only after "
+            "CertificateVerify passed all checks and Finished verified) and unsolicited_control_fatal (model = the fatalDesc table). "
+            "Tie: seeded histories on live TLS 1.3 / TLS<=1.2 lab connections (simultaneous KeyUpdates, storms, buffered data across "
+            "KeyUpdate, min=0 reads, PHA with client certificate incl. seven tampered variants, heartbeat modes, fragmentation) with "
+            "every op compared with the model; direct FIFO / no-alert / HKDF-generation / KeyUpdate-answered-once / echo / PHA / "
+            "fatal-alert oracle on the implementation.",
     "note": "Trusted: Lean kernel, the correspondence harness, hashlib/hmac for the independent HKDF chain. Records are atomic in the "
             "model (one message per record; no handshake fragmentation across records); the AEAD is abstracted to 'accepted iff "
-            "generation matches' (C02). Unsolicited heartbeat responses are handed to the callback (RFC 6520 asks to discard silently); "
-            "recorded as observation, not as violation.",
+            "generation matches' (C02). Observations recorded, not judged: an unsolicited heartbeat response is handed to the callback "
+            "(RFC 6520 asks to discard silently); close() with closeSocket=False refuses a PHA message still in flight with "
+            "unexpected_message; heartbeat messages larger than a user-lowered recordSize are fragmented.",
     "technique": "Lean 4 invariant proof over all histories of the connection model; differential correspondence on live endpoints; direct oracle",
 }
 
